@@ -36,6 +36,9 @@ type FuncContract struct {
 	Requires   []*Clause
 	Ensures    []*Clause
 	EnsuresP   []*Clause // ensures on panic exits
+	CallPre    map[string][]*Clause // obligations on the arguments of calls made by this function, keyed by callee
+	DynMod     []*Clause            // assumed frame of dynamic calls in this function
+	HasDynMod  bool
 	Checks     []*Clause // internal postconditions (may mention locals; not exported to callers)
 	Functional bool
 	Modifies   []*Clause
@@ -101,7 +104,7 @@ func newContracts() *Contracts {
 	return &Contracts{Funcs: map[string]*FuncContract{}, Specs: map[string]*SpecFunc{}, Decls: map[string][]string{}}
 }
 
-var keywordRe = regexp.MustCompile(`^(func|requires|ensures_on_panic|ensures|check|functional|closeonce|modifies|pure|trusted|strict|mathint|maypanic|nobody|loop|param|spec|axiom|lemma|monitor|allocbound|decl)\b`)
+var keywordRe = regexp.MustCompile(`^(func|requires|ensures_on_panic|ensures|check|functional|closeonce|callpre|dyncall|modifies|pure|trusted|strict|mathint|maypanic|nobody|loop|param|spec|axiom|lemma|monitor|allocbound|decl)\b`)
 
 // preprocess rewrites `A ==> B` into implies(A, B) (lowest precedence within its paren group)
 // and `A <==> B` into iff(A, B).
@@ -290,6 +293,37 @@ func (cs *Contracts) parseContractFile(path string, content []byte, pkgName stri
 			for _, part := range splitTopComma(rest) {
 				if c := mk(part, it.line); c != nil {
 					cur.Modifies = append(cur.Modifies, c)
+				}
+			}
+		case "callpre":
+			if cur == nil {
+				fail(it.line, "callpre outside func")
+				continue
+			}
+			f := strings.Fields(rest)
+			if len(f) < 2 {
+				fail(it.line, "bad callpre")
+				continue
+			}
+			body := strings.TrimSpace(strings.TrimPrefix(rest, f[0]))
+			if c := mk(body, it.line); c != nil {
+				if cur.CallPre == nil {
+					cur.CallPre = map[string][]*Clause{}
+				}
+				cur.CallPre[f[0]] = append(cur.CallPre[f[0]], c)
+			}
+		case "dyncall":
+			if cur == nil {
+				fail(it.line, "dyncall outside func")
+				continue
+			}
+			body := strings.TrimSpace(strings.TrimPrefix(rest, "modifies"))
+			cur.HasDynMod = true
+			if body != "" && body != "nothing" {
+				for _, part := range splitTopComma(body) {
+					if c := mk(part, it.line); c != nil {
+						cur.DynMod = append(cur.DynMod, c)
+					}
 				}
 			}
 		case "check":
